@@ -298,6 +298,13 @@ pub fn g_exp_texts(o: &mut Out, types: &[&str]) {
             es.push((&base - BigInt::from(24617 + d)).to_string());
         }
     }
+    // small exponents padded with zeros to every interesting text length (9..12, 19..21, 39..41 digits: the lengths of
+    // i32/u32, i64/u64 and i128/u128 limits): the value, not the length of its text, decides
+    for total in [9usize, 10, 11, 12, 19, 20, 21, 39, 40, 41] {
+        for small in ["0", "5", "90", "369", "6111", "24534", "24617"] {
+            es.push(format!("{}{}", "0".repeat(total - small.len()), small));
+        }
+    }
     for ty in types {
         for e in &es {
             for body in ["1", "7.5"] {
@@ -901,8 +908,11 @@ fn fragmentations(o: &mut Out, ty: &str, cap: &str, text: &str, faults: bool) {
             o.put(&format!("frag-empty/{}", ty), format!("parse_fmt {} {} {} -", ty, cap, e));
         }
         if faults && (m % 5 == 0 || n <= 6) {
-            let k = o.rng.below(frs.len() as u64 + 1);
-            o.put(&format!("frag-fail/{}", ty), format!("parse_fmt {} {} {} fail:{}", ty, cap, plain, k));
+            // a source failure after each fragment of short fragmentations, one random place in long ones
+            let ks: Vec<u64> = if frs.len() <= 6 { (0..=frs.len() as u64).collect() } else { vec![o.rng.below(frs.len() as u64 + 1)] };
+            for k in ks {
+                o.put(&format!("frag-fail/{}", ty), format!("parse_fmt {} {} {} fail:{}", ty, cap, plain, k));
+            }
             o.put(&format!("frag-swallow/{}", ty), format!("parse_fmt {} {} {} swallow", ty, cap, plain));
         }
     }
